@@ -76,7 +76,10 @@ def b_plane(ch):
     n = [ch.choose('n%d' % i, [1.0, 0.0, -1.0, 0.5, 1e-5], free=True) for i in range(3)]
     if not any(n):
         ch.reject()
-    return card_state('p', n + [ch.choose('D', [1.5, -2.0, 0.0, 0.5], free=True)], scale=sc)
+    h = ch.choose('equation-scale', [1.0, 1.0e-9, 1.0e7])
+    if h != 1.0 and sc != 1.0:
+        ch.reject()
+    return card_state('p', [h * v for v in n + [ch.choose('D', [1.5, -2.0, 0.0, 0.5], free=True)]], scale=sc)
 
 
 P3_CASES = [
@@ -140,7 +143,9 @@ def b_sq(ch):
     deff = [ch.choose(n, [0.0, 0.3, -0.2], free=False) for n in 'DEF']
     G = ch.choose('G', [-4.0, -1.0, 1.0], free=True)
     c = ch.choose('centre', [(0.0, 0.0, 0.0), (1.0, -1.0, 0.5), (-2.0, 0.5, 0.0)], free=True)
-    st = card_state('sq', abc + deff + [G] + list(c))
+    # the equation is homogeneous: the same locus with all seven coefficients scaled
+    h = ch.choose('equation-scale', [1.0, 1.0e-12, 1.0e9])
+    st = card_state('sq', [h * v for v in abc + deff + [G]] + list(c))
     # value of the MCNP expression at the centre: positive-centre cards are excluded (DESIGN 7)
     if G > 0:
         ch.reject('positive centre')
@@ -154,7 +159,8 @@ def b_gq(ch):
     cross = [ch.choose(n, [0.0, 0.3, -0.2]) for n in 'DEF']
     lin = [ch.choose(n, [0.0, 1.0, -0.5]) for n in 'GHJ']
     K = ch.choose('K', [-6.0, 1.0, 0.0], free=True)
-    return card_state('gq', abc + cross + lin + [K])
+    h = ch.choose('equation-scale', [1.0, 1.0e-12, 1.0e9])
+    return card_state('gq', [h * v for v in abc + cross + lin + [K]])
 
 
 def b_torus(ch):
